@@ -1037,3 +1037,58 @@ Example C01_lost_instance :
   | _, _ => false
   end = true.
 Proof. vm_compute. reflexivity. Qed.
+
+(** ** the rounds after the replacement ADD has been scheduled (coq/proofs/FleetLostBProofs.v) *)
+From Drummer.Proofs Require Import FleetLostBProofs.
+
+(* stage (a): the round in which the ADD is applied. StageA L s0 f0 st: st is of class LostK, (s0, f0) is the one lost
+   member, every pending request is a leftover / restore or a live ADD for s0 (current fence, FleetMendBProofs.lchange),
+   and one live ADD waits for the NodeHost of a healthy member of s0. After the round (for EVERY allowed outcome but
+   OCrash - the random source never returns replica id 0 -, with a spare NodeHost and fresh ids) the membership of s0 has
+   got one more entry (the new member x at the spare NodeHost), and the state is of class StageB: Drummer's view of s0
+   is exactly one version behind, every record is stamped, x has no data yet, every pending request is a leftover (the
+   ADD that Drummer schedules again from the old view is stale), healthy members still run. *)
+Theorem C01_lost_stage_add_applied :
+  forall (L : N -> N -> Prop) (P : params), (forall s rid, L s rid \/ ~ L s rid) ->
+  forall (s0 f0 : N) (st st' : fstate) (plogs : N -> bool) (nticks : nat) (o : outcome),
+  StageA L s0 f0 st -> (forall a, plogs a = true) -> N.of_nat nticks * p_step P < p_ttl P ->
+  (forall s, is_Some (f_hist st !! s) -> exists a, spare st a s) -> o <> OCrash ->
+  (forall st4, pre_schedule P plogs nticks st = Some st4 -> fresh_ok st4 (ESchedule o)) ->
+  healthy_round P plogs nticks o st = Some st' ->
+  exists b, o = OBatch b /\ StageB L s0 f0 st' /\
+    d_tick (f_db st') = d_tick (f_db st) + N.of_nat nticks * p_step P /\
+    (length (hist_of (f_hist st) s0) < length (hist_of (f_hist st') s0))%nat.
+Proof. exact lost_stage_add_applied. Qed.
+Print Assumptions C01_lost_stage_add_applied.
+
+(* stage (b), first round: the view catches up. From StageB the round (same hypotheses) ends - for every allowed outcome
+   but OCrash - in StageC L s0 f0 x t: every view entry is current, the new member x of s0 (NodeHost t) is shown as
+   waiting (never reported, first seen this round), the join-CREATE for x is pending for t (sc_join), x has no data
+   yet, every other pending request is a leftover; the memberships are unchanged. *)
+Theorem C01_lost_stage_join :
+  forall (L : N -> N -> Prop) (P : params), (forall s rid, L s rid \/ ~ L s rid) ->
+  forall (s0 f0 : N) (st st' : fstate) (plogs : N -> bool) (nticks : nat) (o : outcome),
+  StageB L s0 f0 st -> (forall a, plogs a = true) -> N.of_nat nticks * p_step P < p_ttl P ->
+  (forall s, is_Some (f_hist st !! s) -> exists a, spare st a s) -> o <> OCrash ->
+  (forall st4, pre_schedule P plogs nticks st = Some st4 -> fresh_ok st4 (ESchedule o)) ->
+  healthy_round P plogs nticks o st = Some st' ->
+  exists b x t, o = OBatch b /\ StageC L s0 f0 x t st' /\ f_hist st' = f_hist st /\
+    d_tick (f_db st') = d_tick (f_db st) + N.of_nat nticks * p_step P.
+Proof. exact lost_stage_join. Qed.
+Print Assumptions C01_lost_stage_join.
+
+(* stage (b), second round: the join-CREATE is executed. From StageC the round ends in StageD L s0 f0 x t: as StageC,
+   but the new member x RUNS on NodeHost t (sd_xrun); it has not reported yet (it was started after this round's
+   reports), so the view still shows it as waiting and Drummer schedules its join-CREATE once more - harmless for a
+   running replica. *)
+Theorem C01_lost_stage_join_started :
+  forall (L : N -> N -> Prop) (P : params), (forall s rid, L s rid \/ ~ L s rid) ->
+  forall (s0 f0 x t : N) (st st' : fstate) (plogs : N -> bool) (nticks : nat) (o : outcome),
+  StageC L s0 f0 x t st -> (forall a, plogs a = true) -> N.of_nat nticks * p_step P < p_ttl P ->
+  (forall s, is_Some (f_hist st !! s) -> exists a, spare st a s) -> o <> OCrash ->
+  (forall st4, pre_schedule P plogs nticks st = Some st4 -> fresh_ok st4 (ESchedule o)) ->
+  healthy_round P plogs nticks o st = Some st' ->
+  exists b, o = OBatch b /\ StageD L s0 f0 x t st' /\ f_hist st' = f_hist st /\
+    d_tick (f_db st') = d_tick (f_db st) + N.of_nat nticks * p_step P.
+Proof. exact lost_stage_join_started. Qed.
+Print Assumptions C01_lost_stage_join_started.
